@@ -6,7 +6,7 @@ import time
 
 PROVED, REFUTED, UNKNOWN = "PROVED", "REFUTED", "UNKNOWN"
 HERE = os.path.dirname(os.path.dirname(os.path.abspath(__file__)))
-EVIDENCE_DIR = os.path.join(HERE, "evidence")
+EVIDENCE_DIR = os.environ.get("VERIF_EVIDENCE_DIR") or os.path.join(HERE, "evidence")
 KNOWN_FILE = os.path.join(HERE, "known_findings.json")
 PINS_FILE = os.path.join(HERE, "pins.json")
 
